@@ -1,6 +1,7 @@
 import UralModel.Lemmas.LinksFromHtml
 import UralModel.Model.UrlsFromHtml
 import UralModel.Lemmas.UrlsFromHtml
+import UralModel.Lemmas.HtmlDoc
 import UralModel.Gen.HtmlPatterns
 /-!
 # C17 — HTML extraction is str/bytes-independent; links are followable and distinct
@@ -290,6 +291,59 @@ theorem urls_from_html_bytes_eq_str (decode : List UInt8 → Except PyErr Str)
 example (unescape : Str → Str) (d : Str) :
     urlsFromHtmlBytes utf8Decode unescape (utf8 d) = .ok (urlsFromHtmlStr unescape d) :=
   urls_from_html_bytes_eq_str utf8Decode utf8Decode_utf8 unescape d
+
+/-- **one URL per anchor, outside scripts, in document order, stripped and unescaped.** For
+every well-formed structured document (anchors with the three quoting styles, extra
+attributes before and after the href, upper-case names, closed or not; script blocks whose
+body may contain anchors; text; other tags — `Model/HtmlDoc.lean`), `urls_from_html` of the
+rendered document is the list of the hrefs of its anchor pieces, each whitespace-stripped and
+passed through `html.unescape` (any function). -/
+theorem urls_from_html_render (unescape : Str → Str) (doc : Doc) (h : WF doc = true) :
+    urlsFromHtmlStr unescape (render doc) =
+      (hrefsOutsideScripts doc).map fun href => unescape (strip href) := by
+  unfold urlsFromHtmlStr
+  rw [scan_render doc h]
+
+/-- the same for the UTF-8 bytes of the document -/
+theorem urls_from_html_render_bytes (decode : List UInt8 → Except PyErr Str)
+    (hdec : ∀ s, decode (utf8 s) = .ok s) (unescape : Str → Str) (doc : Doc) (h : WF doc = true) :
+    urlsFromHtmlBytes decode unescape (utf8 (render doc)) =
+      .ok ((hrefsOutsideScripts doc).map fun href => unescape (strip href)) := by
+  rw [urls_from_html_bytes_eq_str decode hdec, urls_from_html_render unescape doc h]
+
+section DocExamples
+
+private def t (x : String) : Str := x.toList
+
+/-- a document exercising every piece kind and every quoting style -/
+private def sample : Doc :=
+  [ .text (t "caf\u00e9 \u00a0 > "),
+    .anchor ⟨.dq, t " http://a.com/?a=1&amp;b=2 ", t " class=\"k\"", ' ', t " id=z", false, true, t "x"⟩,
+    .script (t " type=\"text/javascript\"") (t "document.write('<a href=\"http://in.script/\">y</a>');") false,
+    .anchor ⟨.sq, t "/rel\u017f", [], '\n', [], true, false, []⟩,
+    .otherTag (t "br/"),
+    .script [] (t "<a href=/s>") true,
+    .anchor ⟨.un, t "//c.com/\u212a", t " data-x=1", '\t', t " rel=nofollow", false, true, t "\u2028"⟩ ]
+
+/-- non-vacuity: the sample is well-formed (decided by the kernel), so the theorem applies to
+it: three URLs, the anchors inside the two script blocks are not reported -/
+example : WF sample = true := by decide
+
+example : urlsFromHtmlStr id (render sample) =
+    [t "http://a.com/?a=1&amp;b=2", t "/rel\u017f", t "//c.com/\u212a"] := by
+  rw [urls_from_html_render id sample (by decide)]
+  decide
+
+/-- well-formedness is needed: a `"`-quoted href containing a `"` renders to the same text as
+a shorter href followed by another attribute, which is what the scanner (and `re`) reports -/
+example : ∃ d : Doc, WF d = false ∧ scan (render d) ≠ hrefsOutsideScripts d := by
+  refine ⟨[.anchor ⟨.dq, t "x\" y=\"z", [], ' ', [], false, false, []⟩], by decide, ?_⟩
+  have e : render [.anchor ⟨.dq, t "x\" y=\"z", [], ' ', [], false, false, []⟩] =
+      render [.anchor ⟨.dq, t "x", [], ' ', t " y=\"z\"", false, false, []⟩] := by decide
+  rw [e, scan_render _ (by decide)]
+  decide
+
+end DocExamples
 
 /-! ## Table obligations on the regenerated regexes (re-checked after every regeneration) -/
 
